@@ -152,7 +152,7 @@ func init() {
 				mk("c01-empty", [][]world.Op{nil}, []int{4, 1, 1, 3, 0}, 5),
 				mk("c01-staked", [][]world.Op{staked}, []int{3, 1, 1, 3, 0}, 4),
 				union,
-				unionFullScenario("C01", "c01-union-full-pipeline", tier, c01Step, func(w *world.World, root *engine.Node) engine.Ref { return &giftRef{gift: map[string]math.Int{}} }, 4),
+				unionFullScenario("C01", "c01-union-full-pipeline", tier, c01Step, func(w *world.World, root *engine.Node) engine.Ref { return &giftRef{gift: map[string]math.Int{}} }, 3),
 			}
 		},
 		Assumptions: []string{
